@@ -80,6 +80,8 @@ enum HLine {
 enum Rec {
     Sync(u64),
     Fire { aid: u64, model: usize, seen: u64 },
+    /// a handler of `model` scheduled action `aid` on itself for the absolute time `t` (accepted)
+    HSched { model: usize, aid: u64, t: u64, period: u64 },
     /// a key object registered under name `key` for action `aid`
     KeyAdded { key: u64, aid: u64 },
     /// every key object registered so far under name `key` was cancelled (`model`: by a handler of that model)
@@ -139,23 +141,28 @@ impl M {
                 }
                 HLine::Sched { dl, kind, period, aid, key } => {
                     let p = Duration::from_nanos(period);
-                    match kind.as_str() {
-                        "once" => {
-                            let _ = cx.schedule_event(dl, M::inp, aid);
-                        }
-                        "keyed" => {
-                            if let Ok(k) = cx.schedule_keyed_event(dl, M::inp, aid) {
+                    let t = ns(dl.into_time(cx.time()));
+                    let accepted = match kind.as_str() {
+                        "once" => cx.schedule_event(dl, M::inp, aid).is_ok(),
+                        "keyed" => match cx.schedule_keyed_event(dl, M::inp, aid) {
+                            Ok(k) => {
                                 self.sh.add_key(key, k, aid);
+                                true
                             }
-                        }
-                        "per" => {
-                            let _ = cx.schedule_periodic_event(dl, p, M::inp, aid);
-                        }
-                        _ => {
-                            if let Ok(k) = cx.schedule_keyed_periodic_event(dl, p, M::inp, aid) {
+                            Err(_) => false,
+                        },
+                        "per" => cx.schedule_periodic_event(dl, p, M::inp, aid).is_ok(),
+                        _ => match cx.schedule_keyed_periodic_event(dl, p, M::inp, aid) {
+                            Ok(k) => {
                                 self.sh.add_key(key, k, aid);
+                                true
                             }
-                        }
+                            Err(_) => false,
+                        },
+                    };
+                    if accepted {
+                        let per = if kind == "per" || kind == "kper" { period } else { 0 };
+                        self.sh.log.lock().unwrap().push(Rec::HSched { model: self.idx, aid, t, period: per });
                     }
                 }
             }
@@ -287,8 +294,25 @@ struct Mon {
     /// key objects in registration order per key name: (aid, cancelled by (command index, model))
     objs: HashMap<u64, Vec<(u64, Option<(usize, Option<usize>)>)>>,
     cmd: usize,
+    /// C07: scheduling order.  (aid, deadline) -> (origin, sequence number of the scheduling moment, period, ambiguous)
+    sched_seq: HashMap<(u64, u64), (usize, u64, u64, bool)>,
+    seq: u64,
+    sync_seq: u64,
+    /// (origin, model, time) -> highest scheduling sequence number processed so far, and the action that had it
+    group_last: HashMap<(usize, usize, u64), (u64, u64)>,
 }
 impl Mon {
+    /// an action was accepted for the absolute time `t` (origin 0 = driver / event source, m + 1 = model m)
+    fn note_sched(&mut self, aid: u64, t: u64, origin: usize, period: u64) {
+        self.seq += 1;
+        let sq = self.seq;
+        match self.sched_seq.get_mut(&(aid, t)) {
+            Some(e) => e.3 = true, // the same action scheduled twice for the same time: lineage is ambiguous
+            None => {
+                self.sched_seq.insert((aid, t), (origin, sq, period, false));
+            }
+        }
+    }
     fn hit(&mut self, p: &str, w: String) {
         if self.hits.len() < 4 {
             self.hits.push((p.to_string(), w));
@@ -317,7 +341,7 @@ fn render(recs: &[Rec], drv: &HashSet<u64>) -> String {
                 let origin = if drv.contains(aid) { 0 } else { model + 1 };
                 cur.push((*model, origin, format!("F{aid}@{model}:{seen}")));
             }
-            Rec::KeyAdded { .. } | Rec::Cancelled { .. } => {}
+            Rec::KeyAdded { .. } | Rec::Cancelled { .. } | Rec::HSched { .. } => {}
         }
     }
     flush(&mut cur, &mut out);
@@ -364,6 +388,7 @@ fn run_case(lines: Vec<String>, hints: Arc<Mutex<Vec<String>>>, resp: Arc<Mutex<
             let periodic = *kind == "per" || *kind == "kper";
             let expect = if periodic && period == 0 { "null-period" } else if t <= now { "invalid-time" } else { "ok" };
             if expect == "ok" {
+                mon.note_sched(aid, t, 0, if periodic { period } else { 0 });
                 let keyed = *kind == "keyed" || *kind == "kper";
                 let n = mon.rank.len();
                 mon.rank.insert(aid, n);
@@ -510,6 +535,7 @@ fn run_case(lines: Vec<String>, hints: Arc<Mutex<Vec<String>>>, resp: Arc<Mutex<
                     mon.hit("C08", format!("`{l}` at time {now} returned `{r}`, the statement requires `{expect}`"));
                 }
                 if r == "ok" {
+                    mon.note_sched(aid, t, 0, if periodic { period } else { 0 });
                     let keyed = *kind == "keyed" || *kind == "kper";
                     let n = mon.rank.len();
                     mon.rank.insert(aid, n);
@@ -559,6 +585,9 @@ fn run_case(lines: Vec<String>, hints: Arc<Mutex<Vec<String>>>, resp: Arc<Mutex<
                         let both_bad = t <= now && periodic && period.is_zero();
                         if r != expect && !(both_bad && r != "ok") {
                             mon.hit("C08", format!("`{l}` at time {now} returned `{r}`, the statement requires `{expect}`"));
+                        }
+                        if r == "ok" {
+                            mon.note_sched(aid, t, 0, if periodic { period.as_nanos() as u64 } else { 0 });
                         }
                         r.to_string()
                     }
@@ -669,7 +698,7 @@ fn run_case(lines: Vec<String>, hints: Arc<Mutex<Vec<String>>>, resp: Arc<Mutex<
                                 }
                             }
                         }
-                        Rec::Ext { .. } | Rec::KeyAdded { .. } | Rec::Cancelled { .. } => {}
+                        Rec::Ext { .. } | Rec::KeyAdded { .. } | Rec::Cancelled { .. } | Rec::HSched { .. } => {}
                     }
                 }
                 if res.is_ok() && w[0] != "proc" {
@@ -744,7 +773,8 @@ fn run_case(lines: Vec<String>, hints: Arc<Mutex<Vec<String>>>, resp: Arc<Mutex<
                 let r1 = h.join().unwrap_or("panic");
                 if let Some(b) = bench.as_ref() {
                     let now = ns(b.sim.time());
-                    if r1 == "ok" && t <= now && !mon.fires.iter().any(|f| f.0 == aid) {
+                    let cancelled = mon.objs.values().any(|v| v.iter().any(|o| o.0 == aid && o.1.is_some()));
+                    if r1 == "ok" && r.starts_with("ok") && !cancelled && t <= now && !mon.fires.iter().any(|f| f.0 == aid) {
                         mon.hit("C08", format!("`{l}`: the request returned Ok when the simulation time was already {now}, with deadline {t} <= {now}, and its action has not run: accepted although not strictly in the future (the deadline was validated outside the queue lock)"));
                     }
                 }
@@ -769,6 +799,48 @@ fn run_case(lines: Vec<String>, hints: Arc<Mutex<Vec<String>>>, resp: Arc<Mutex<
                         if o.1.is_none() {
                             o.1 = Some((c, *model));
                         }
+                    }
+                }
+                Rec::Sync(_) => {
+                    mon.seq += 1;
+                    mon.sync_seq = mon.seq;
+                }
+                Rec::HSched { model, aid, t, period } => mon.note_sched(*aid, *t, *model + 1, *period),
+                Rec::Fire { aid, model, seen } if w[0] != "proc" && mon.sched_seq.contains_key(&(*aid, *seen)) => {
+                    let (origin, sq, period, amb) = mon.sched_seq[&(*aid, *seen)];
+                    // the next occurrence of a periodic action counts as scheduled when this one was pulled, i.e. at the
+                    // beginning of this time step, before any handler of the step ran
+                    if period > 0 {
+                        let sync_seq = mon.sync_seq;
+                        match mon.sched_seq.get_mut(&(*aid, *seen + period)) {
+                            Some(e) => e.3 = true,
+                            None => {
+                                mon.sched_seq.insert((*aid, *seen + period), (origin, sync_seq, period, amb));
+                            }
+                        }
+                    }
+                    if !amb {
+                        let g = (origin, *model, *seen);
+                        match mon.group_last.get(&g).copied() {
+                            Some((lsq, laid)) if sq < lsq => {
+                                mon.hit("C07", format!("`{l}`: at time {seen} model {model} processed action {laid} before action {aid}, although both come from the same origin and action {aid} was scheduled first"));
+                            }
+                            Some((lsq, _)) if sq <= lsq => {}
+                            _ => {
+                                mon.group_last.insert(g, (sq, *aid));
+                            }
+                        }
+                    }
+                    // fall through to the C09 part below by re-matching
+                    let mine: Vec<(u64, Option<(usize, Option<usize>)>)> =
+                        mon.objs.iter().flat_map(|(k, v)| v.iter().filter(|o| o.0 == *aid).map(move |o| (*k, o.1))).collect();
+                    if !mine.is_empty() && mine.iter().all(|(_, c)| matches!(c, Some((cmd, by)) if *cmd < mon.cmd || *by == Some(*model))) {
+                        let (k, c) = mine[0];
+                        let who = match c {
+                            Some((cmd, _)) if cmd < mon.cmd => "before this call".to_string(),
+                            _ => format!("earlier in this call by a handler of model {model} itself"),
+                        };
+                        mon.hit("C09", format!("`{l}`: action {aid} (key {k}) ran on model {model} at time {seen} although every key object issued for it had been cancelled {who}"));
                     }
                 }
                 Rec::Fire { aid, model, seen } => {
@@ -992,7 +1064,7 @@ fn gen_case(rng: &mut Rng, tier: Tier, focus: &str) -> Case {
                 }
                 let t = if dk == "abs" { dl } else { est_now + dl };
                 horizon_marks.push(t);
-                if rng.chance(1, if focus == "C08" { 25 } else { 200 }) {
+                if rng.chance(1, if focus == "C08" && tier == Tier::Quick { 25 } else if focus == "C08" { 120 } else { 400 }) {
                     // the same request, issued from another thread while the simulation thread starts a step
                     cmds.push(format!("race m {m} {dk} {dl} {kind} {p} {aid} {key} then step"));
                     est_now = horizon_marks.iter().copied().filter(|t| *t > est_now).min().unwrap_or(est_now);
